@@ -414,6 +414,19 @@ func (m *Model) Commit(x *Exp) {
 		m.NAlive = 0
 		for i := range m.Filters {
 			m.Filters[i].Registered = false
+			// relation targets fixed in a filter are handles of the previous epoch: such
+			// filters are meaningless in the new epoch and are dropped from the standing pool
+			if len(m.Filters[i].Spec.Rels) > 0 {
+				nonzero := false
+				for _, r := range m.Filters[i].Spec.Rels {
+					if r.T != ZeroE {
+						nonzero = true
+					}
+				}
+				if nonzero {
+					m.Filters[i].Used = false
+				}
+			}
 		}
 		for i := range m.Obs {
 			m.Obs[i].Registered = false
